@@ -96,7 +96,7 @@ theorem pinv_init (s : Shape) (v : Val) (base : Nat) (B : PBuf) (hok : s.ok = tr
     PInv s ⟨⟨⟨encode s v, (encode s v).length, 0, []⟩, base, treeOf s v base, [[]], false, false⟩, B⟩ v := by
   simp only [WF, Bool.and_eq_true] at hwf
   have g : Good s v := ⟨⟨true, false, hok⟩, hwf.1, hwf.2⟩
-  refine ⟨⟨g, hok, hnd, rfl, ⟨rfl, hsmall, by simp [World.get]⟩, ownsOwn_A _, hbig, hfar⟩, by simp, ⟨s, v, treeOf s v base, ?_, ?_, ?_⟩⟩
+  refine ⟨⟨g, hok, hnd, rfl, ⟨rfl, hsmall, by simp [World.get]⟩, ownsOwn_A _, ⟨hfar, hbig⟩⟩, by simp, ⟨s, v, treeOf s v base, ?_, ?_, ?_⟩⟩
   · simp [PBuf.cur, resolve]
   · simp [PBuf.cur, HonPath]
   · simp only [PBuf.cur, List.getLastD, List.getLast_singleton, offsetOf, Nat.add_zero]; exact hon_treeOf s v _
